@@ -34,7 +34,10 @@ from lib import stage
 ID = "C04"
 LEAN_TARGETS = ["AiuVerif.Props.C04"]
 THEOREMS = [
+    "AiuVerif.C04.laminar_stage",
     "AiuVerif.C04.laminar_tid",
+    "AiuVerif.C04.laminar_drop",
+    "AiuVerif.C04.only_tid_changes_stage",
     "AiuVerif.C04.only_tid_changes",
 ]
 RULE = ("interval families as X events (plus counter events) on (pid,tid) lanes: exhaustive over one lane with "
